@@ -1615,6 +1615,9 @@ impl DistributedTxCoordinator {
                     .release_by_handle_with_wait_cleanup(*lock_handle, &self.wait_graph);
             }
         }
+        // The handle-based cleanup above only reaches the wait-for graph when it still finds a
+        // lock carrying the handle; an ended transaction must leave the graph unconditionally.
+        self.wait_graph.remove_transaction(tx_id);
 
         // Mark all locks released
         let _ = self.log_wal_entry(&TxWalEntry::AllLocksReleased { tx_id });
@@ -1656,6 +1659,9 @@ impl DistributedTxCoordinator {
                     .release_by_handle_with_wait_cleanup(*lock_handle, &self.wait_graph);
             }
         }
+        // The handle-based cleanup above only reaches the wait-for graph when it still finds a
+        // lock carrying the handle; an ended transaction must leave the graph unconditionally.
+        self.wait_graph.remove_transaction(tx_id);
 
         tx.phase = TxPhase::Committed;
         self.stats.committed.fetch_add(1, Ordering::Relaxed);
@@ -1691,6 +1697,9 @@ impl DistributedTxCoordinator {
                     .release_by_handle_with_wait_cleanup(*lock_handle, &self.wait_graph);
             }
         }
+        // The handle-based cleanup above only reaches the wait-for graph when it still finds a
+        // lock carrying the handle; an ended transaction must leave the graph unconditionally.
+        self.wait_graph.remove_transaction(tx_id);
 
         tx.phase = TxPhase::Aborted;
         self.stats.aborted.fetch_add(1, Ordering::Relaxed);
@@ -1747,6 +1756,9 @@ impl DistributedTxCoordinator {
                     .release_by_handle_with_wait_cleanup(*lock_handle, &self.wait_graph);
             }
         }
+        // The handle-based cleanup above only reaches the wait-for graph when it still finds a
+        // lock carrying the handle; an ended transaction must leave the graph unconditionally.
+        self.wait_graph.remove_transaction(tx_id);
 
         tx.phase = TxPhase::Aborted;
         self.stats.aborted.fetch_add(1, Ordering::Relaxed);
@@ -1798,6 +1810,9 @@ impl DistributedTxCoordinator {
                             .release_by_handle_with_wait_cleanup(*lock_handle, &self.wait_graph);
                     }
                 }
+                // The handle-based cleanup above only reaches the wait-for graph when it still finds a
+                // lock carrying the handle; an ended transaction must leave the graph unconditionally.
+                self.wait_graph.remove_transaction(*tx_id);
                 self.stats.timed_out.fetch_add(1, Ordering::Relaxed);
             }
         }
@@ -2114,6 +2129,9 @@ impl DistributedTxCoordinator {
                             .release_by_handle_with_wait_cleanup(*lock_handle, &self.wait_graph);
                     }
                 }
+                // The handle-based cleanup above only reaches the wait-for graph when it still finds a
+                // lock carrying the handle; an ended transaction must leave the graph unconditionally.
+                self.wait_graph.remove_transaction(tx_id);
             }
         }
 
@@ -2186,6 +2204,9 @@ impl DistributedTxCoordinator {
                             .release_by_handle_with_wait_cleanup(*lock_handle, &self.wait_graph);
                     }
                 }
+                // The handle-based cleanup above only reaches the wait-for graph when it still finds a
+                // lock carrying the handle; an ended transaction must leave the graph unconditionally.
+                self.wait_graph.remove_transaction(tx_id);
                 tx.phase = TxPhase::Committed;
                 self.stats.committed.fetch_add(1, Ordering::Relaxed);
                 pending.remove(&tx_id);
@@ -2203,6 +2224,9 @@ impl DistributedTxCoordinator {
                         .release_by_handle_with_wait_cleanup(*lock_handle, &self.wait_graph);
                 }
             }
+            // The handle-based cleanup above only reaches the wait-for graph when it still finds a
+            // lock carrying the handle; an ended transaction must leave the graph unconditionally.
+            self.wait_graph.remove_transaction(tx_id);
             tx.phase = TxPhase::Aborted;
             self.stats.aborted.fetch_add(1, Ordering::Relaxed);
             pending.remove(&tx_id);
